@@ -314,6 +314,16 @@ theorem defaultsOf_conf : ∀ (fds : List Field),
         simp [hv, hr] at h; subst h
         simp [confF_cons, hd f (by simp) d hv, hv, ih (fun g hg => hd g (by simp [hg])) r hr]
 
+theorem confT_length : ∀ (ts : List Ty) (xs : List Obj), confT w ts xs = true → xs.length = ts.length := by
+  intro ts
+  induction ts with
+  | nil => intro xs h; cases xs <;> simp_all [confT]
+  | cons t ts ih =>
+    intro xs h
+    cases xs with
+    | nil => simp [confT] at h
+    | cons x xs => simp only [confT, Bool.and_eq_true] at h; simp [ih xs h.2]
+
 /-- **C02 (core).**  For every type and every input object: if the fast template accepts, the
 result conforms to the type at every depth. -/
 theorem sound_aux (hw : w.WF) :
@@ -509,6 +519,26 @@ theorem sound_aux (hw : w.WF) :
           simp [conf, (unionPick_none hp).1]
         | refuseCreate => simp [hp] at h
         | refuseResolve => simp [hp] at h
+      | nt c =>
+        cases hit : iterItems o with
+        | none => rw [stF_nt_none w cfg hit] at h; cases h
+        | some xs =>
+          rw [stF_nt_some w cfg hit] at h
+          have hlt := iterItems_lt hit
+          by_cases hnt : w.isNT c = true
+          · rw [if_pos hnt] at h
+            cases hf : stFT w cfg (w.ntTys c) xs with
+            | none => simp [hf] at h
+            | some ys =>
+              simp [hf] at h; subst h
+              have hT := soundT w cfg (w.ntTys c) xs
+                (fun t' _ x hx v' hv => IHo t' x (by have := List.sizeOf_lt_of_mem hx; omega) v' hv) ys hf
+              have hlen : (w.ntNames c).length = ys.length := by
+                rw [confT_length w _ _ hT, ntTys_length]
+              simp only [ntMk, conf, beq_self_eq_true, hnt, Bool.true_and, Bool.and_eq_true]
+              rw [names_zip hlen, vals_zip hlen]
+              exact ⟨by simp, hT⟩
+          · simp [hnt] at h
 
 theorem sound (hw : w.WF) (t : Ty) (o v : Obj) (h : stF w cfg t o = some v) : conf w t v = true :=
   sound_aux w cfg hw (sizeOf o) (sizeOf t) t o v (Nat.le_refl _) (Nat.le_refl _) h
@@ -533,14 +563,5 @@ theorem stFFields_present_invalid (kvs : List (Obj × Obj)) : ∀ (fds : List Fi
       · have hgi' : g.init = false := by simpa using hgi
         rw [stFFields_noinit w cfg hgi', hrest]; cases g.dflt.value? <;> rfl
 
-theorem confT_length : ∀ (ts : List Ty) (xs : List Obj), confT w ts xs = true → xs.length = ts.length := by
-  intro ts
-  induction ts with
-  | nil => intro xs h; cases xs <;> simp_all [confT]
-  | cons t ts ih =>
-    intro xs h
-    cases xs with
-    | nil => simp [confT] at h
-    | cons x xs => simp only [confT, Bool.and_eq_true] at h; simp [ih xs h.2]
 
 end CattrsModel
